@@ -2,7 +2,7 @@
 file system of pyvc/lib/fs.py."""
 import z3
 from pyvc.spec import contract, TInt, TAObj, TOpt, TStr, TSeq, NS, Forall, TPyList
-from pyvc.values import Int, Bool, OptV, AObj
+from pyvc.values import Int, Bool, Str, Ref, OptV, AObj
 from pyvc.lib import fs as F
 from pyvc.lib.fs import Path, KINDS
 
@@ -79,7 +79,20 @@ _DM = z3.Const("no_meta", F.meta_of.range())
 # ----------------------------------------------------------------------------------------- examine_output_dir_...
 ex = contract(S + "examine_output_dir_to_determine_current_iteration", params=[("output_dir", TPath), ("batch_size", TInt)])
 ex.setup = _setup
-ex.raises("RuntimeError", lambda a: any_defect(a.ghost["fs0"]))
+def _named_dir_is_the_defective_one(a):
+    """the RuntimeError's message interpolates a path: it must be a plate directory that is itself defective (the one the operator is
+    told to delete) - never a completed step"""
+    exc = a.ghost.get("raised")
+    fs = a.ghost["fs0"]
+    msg = exc.args[0] if exc is not None and getattr(exc, "args", None) else None
+    paths = [p for p in getattr(msg, "parts", []) if isinstance(p, AObj) and p.clsname == F.PATH]
+    if len(paths) != 1:
+        return z3.BoolVal(False)
+    t = paths[0].term
+    return z3.And(Path.is_Job(t), defect(fs, Path.ji(t), Path.jj(t)))
+
+
+ex.raises("RuntimeError", lambda a: z3.And(any_defect(a.ghost["fs0"]), _named_dir_is_the_defective_one(a)) if a.ghost.get("raised") is not None else any_defect(a.ghost["fs0"]))
 
 
 def ex_post_formulas(fs, B, ni, nj, meta_none, meta, scr_none, scr, I, J):
@@ -375,6 +388,9 @@ for _mode in ("retrospective", "prospective"):
     _st.raises("RuntimeError", lambda a: z3.BoolVal(True), iff=False)  # "could not find test screen": refused rather than run (allowed)
     _st.raises("ValueError", lambda a: z3.BoolVal(True), iff=False)  # "no thetas or dist_chunks found" (allowed: refuses to run)
     _st.ensures("step", _step_post(_mode))
+    _st.apply = None
+    STEP_CONTRACTS = globals().setdefault("STEP_CONTRACTS", {})
+    STEP_CONTRACTS[_mode] = _st
 
 
 # ----------------------------------------------------------------------------------------- crash invariant (lemmas over the contracts)
@@ -440,3 +456,73 @@ def crash_lemmas():
     out.append(("pipeline_finished_advances_by_one_step", CI(fs, B, none, Im, Jm, True) + T + run + [f4.nfiles(META, ci, cj) > 0],
                 z3.And(*CI(f4, B, z3.BoolVal(False), ci, cj, False))))
     return out
+
+
+# ----------------------------------------------------------------------------------------- main(): the loop that decides whether another step is started
+from pyvc.spec import abstract_class, TBool
+ARGS = "CliArgs"
+abstract_class(ARGS, None, {"mode": TStr, "outdir": TPath, "screen": TPath, "batch_size": TInt})
+
+ga = contract(S + "get_args", params=[])
+ga.trusted = True  # argparse: returns (namespace with mode / outdir / screen / batch_size, remaining argument list)
+ga.note = "assumed: argparse returns the command line's values; remaining arguments are passed on untouched"
+
+
+def _ga_apply(i, a, node, fr):
+    from pyvc.values import PyList
+    ctx = i.ctx
+    tok = AObj(ARGS, ctx.fresh("cli", Ref))
+    rest = PyList([ctx.fresh("extra_arg", Str)])
+    ctx.ghost["cli"] = dict(args=tok, rest=rest)
+    return (tok, rest)
+
+
+ga.apply = _ga_apply
+
+
+def _step_apply(mode):
+    def apply(i, a, node, fr):
+        """call-site use of run_next_<mode>_step inside main(): arguments must be the command line's; the result is whatever the
+        step's own contract allows (a fresh Bool, or an exception); the tree changes as that contract says (not needed by main)"""
+        from pyvc.engine import PyRaise, ExcVal
+        from pyvc.spec import abstract_field_value, ABSTRACT_FIELDS
+        ctx = i.ctx
+        cli = ctx.ghost.get("cli")
+        fld = lambda f: abstract_field_value(ARGS, f, ABSTRACT_FIELDS[ARGS][f], cli["args"].term, i)  # noqa
+        ok = cli is not None and a.extra_args is cli["rest"]
+        i.ctx.prove("%s/call:step:passes_the_command_line_unchanged@%s" % (i._cur_label, getattr(node, "lineno", "?")),
+                    z3.And(z3.BoolVal(bool(ok)), a.output_dir.term == fld("outdir").term, a.input_screen.term == fld("screen").term, a.batch_size == fld("batch_size")) if cli else z3.BoolVal(False),
+                    node, "call")
+        if ctx.decide(ctx.fresh("step_raises", Bool)):
+            raise PyRaise(ExcVal("RuntimeError"), node)
+        r = ctx.fresh("should_run_again", Bool)
+        ctx.ghost["last_step"] = dict(mode=mode, result=r)
+        ctx.ghost["n_step_calls"] = ctx.ghost.get("n_step_calls", 0) + 1
+        F.set_state(i, F.FS.fresh(ctx, "fs_after_step"))
+        return r
+    return apply
+
+
+mn = contract(S + "main", params=[])
+mn.raises("ValueError", lambda a: z3.BoolVal(True), iff=False)  # unknown mode (argparse already restricts the choices)
+mn.raises("RuntimeError", lambda a: z3.BoolVal(True), iff=False)  # whatever a step refuses (its own contract says when)
+
+
+def _mn_post(a, ret, st):
+    g = st.ctx.ghost
+    last, cli = g.get("last_step"), g.get("cli")
+    if last is None or cli is None:
+        return [("runs_at_least_one_step", z3.BoolVal(False))]
+    from pyvc.spec import abstract_field_value, ABSTRACT_FIELDS
+    from pyvc.lib.strings import str_const
+    mode = abstract_field_value(ARGS, "mode", ABSTRACT_FIELDS[ARGS]["mode"], cli["args"].term, st)
+    return [("stops_only_when_the_step_says_stop", z3.Not(last["result"])),
+            ("step_function_of_the_selected_mode", mode == str_const(last["mode"]))]
+
+
+mn.ensures("loop", _mn_post)
+mn.loop("while#0", invariant=lambda v: [("continues_only_when_the_step_says_continue",
+                                         v.ghost["last_step"]["result"] if (v.ghost.get("last_step") is not None and v.ghost.get("n_step_calls", 0) > v.ghost.get("_calls_at_head", 0)) else z3.BoolVal(True))])
+
+for _m, _c in STEP_CONTRACTS.items():
+    _c.apply = _step_apply(_m)
